@@ -605,7 +605,85 @@ func init() {
 						c.Violation("same-name-or-mixed-spelling", fmt.Sprintf("%s gave %s, want %q", t.src, got.Describe(), t.want), map[string]any{"source": t.src})
 					}
 				}}
-			return []core.Section{reuse, sameName, {Name: "generated-values", N: n,
+			// large values: slices of 15..100000 elements, maps of 15..5000 keys, structs of up to 120 fields, nesting 15..300 deep,
+			// strings up to 4 MiB - every part is where the Go value has it
+			bigSizes := []int{15, 16, 17, 63, 64, 65, 255, 256, 257, 1000, 1024, 1025, 5000}
+			large := core.Section{Name: "large-values", Exhaustive: true, N: len(bigSizes) * 5,
+				Run: func(c *core.Ctx, i int) {
+					n := bigSizes[i%len(bigSizes)]
+					var data map[string]any
+					var probes [][2]string // source, expected output
+					switch i / len(bigSizes) {
+					case 0: // a long slice
+						m := n * 20
+						xs := make([]int, m)
+						for k := range xs {
+							xs[k] = k * 7
+						}
+						data = map[string]any{"v": xs}
+						probes = [][2]string{{"{{ v.len() }}", fmt.Sprint(m)}, {"{{ v[0] }}|{{ v[" + fmt.Sprint(m-1) + "] }}|{{ v[" + fmt.Sprint(m/2) + "] }}", fmt.Sprintf("0|%d|%d", (m-1)*7, (m/2)*7)},
+							{"{{ v[" + fmt.Sprint(m) + "] }}", ""}, {"@each(x in v)@if(loop.last){{ x }}@end@end", fmt.Sprint((m - 1) * 7)}}
+					case 1: // a map with many keys
+						mp := map[string]any{}
+						for k := 0; k < n; k++ {
+							mp[fmt.Sprintf("k%d", k)] = k
+							mp[fmt.Sprintf("K%d", k)] = -k
+						}
+						data = map[string]any{"v": mp}
+						probes = [][2]string{{"{{ v.k0 }}|{{ v.K0 }}", "0|0"}, {fmt.Sprintf("{{ v.k%d }}|{{ v[\"K%d\"] }}", n-1, n-1), fmt.Sprintf("%d|%d", n-1, -(n - 1))}, {fmt.Sprintf("{{ v.k%d }}", n/2), fmt.Sprint(n / 2)}}
+					case 2: // a struct type with many fields
+						nf := n
+						if nf > 120 {
+							nf = 120
+						}
+						var fields []reflect.StructField
+						for k := 0; k < nf; k++ {
+							fields = append(fields, reflect.StructField{Name: fmt.Sprintf("F%d", k), Type: reflect.TypeOf(0)})
+						}
+						sv := reflect.New(reflect.StructOf(fields)).Elem()
+						for k := 0; k < nf; k++ {
+							sv.Field(k).SetInt(int64(k * 11))
+						}
+						data = map[string]any{"v": sv.Interface()}
+						probes = [][2]string{{"{{ v.F0 }}|{{ v.f0 }}", "0|0"}, {fmt.Sprintf("{{ v.F%d }}|{{ v.f%d }}", nf-1, nf-1), fmt.Sprintf("%d|%d", (nf-1)*11, (nf-1)*11)}, {fmt.Sprintf("{{ v[\"F%d\"] }}", nf/2), fmt.Sprint((nf / 2) * 11)}}
+					case 3: // maps and slices inside one another
+						d := n
+						if d > 300 {
+							d = 300
+						}
+						var v any = "bottom"
+						path := "v"
+						var rev []string
+						for k := 0; k < d; k++ {
+							if k%2 == 0 {
+								v = map[string]any{"a": v, "other": k}
+								rev = append(rev, ".a")
+							} else {
+								v = []any{k, v}
+								rev = append(rev, "[1]")
+							}
+						}
+						for k := len(rev) - 1; k >= 0; k-- {
+							path += rev[k]
+						}
+						data = map[string]any{"v": v}
+						probes = [][2]string{{"{{ " + path + " }}", "bottom"}}
+					default: // a long string, printed and measured
+						unit := "aé<&>\"'中😀\n"
+						str := strings.Repeat(unit, n*40)
+						data = map[string]any{"v": str}
+						probes = [][2]string{{"{{ v.len() }}", fmt.Sprint(utf8.RuneCountInString(str))}, {"<{{ v }}>", "<" + str + ">"}, {"{{ v.last() }}{{ v.at(" + fmt.Sprint(utf8.RuneCountInString(str)-2) + ") }}", "\n😀"}}
+					}
+					for _, pr := range probes {
+						c.Input(map[string]any{"source": pr[0], "size": n, "kind": i / len(bigSizes)})
+						got := evalString(c, pr[0], data)
+						c.Nontrivial(fmt.Sprint(pr[0], n, i/len(bigSizes)))
+						if !got.Panicked && (got.Err != nil || got.Out != pr[1]) {
+							c.Violation("large-value", fmt.Sprintf("%s on a value of size %d gave %s, want %q", pr[0], n, clipS(got.Describe(), 300), clipS(pr[1], 300)), map[string]any{"source": pr[0], "size": n})
+						}
+					}
+				}}
+			return []core.Section{reuse, sameName, large, {Name: "generated-values", N: n,
 				Run: func(c *core.Ctx, i int) {
 					depth := 1 + i%4
 					// the same seed builds the value twice: one is rendered, one is the reference copy
